@@ -68,6 +68,7 @@ def _inner_conds(e, loop):
 
 def run(ctx):
     repo = ctx.repo
+    rules.borrow(ctx, "C14", funcs=["forsys.surface_evolver.SurfaceEvolver.get_cells", "forsys.surface_evolver.SurfaceEvolver.create_lattice"], minimum=6, exclude_rules=("CONST",), because="the cell cycles of a parsed dump are the tail vertices of the signed edges of the face record")
 
     # ================================================================== SmallEdge pairing
     ctx.clause("a vertex lists a mesh edge exactly when that edge ends at it (constructor / destructor / replace_vertex)")
@@ -130,7 +131,7 @@ def run(ctx):
         ok3 = len(sta) == 1 and spec_(sta[0].key) == T.num(slot) and sta[0].value == vnew
         add = [e for e in calls_on(s, "add_edge") if in_case(e)]
         ok4 = len(add) == 1 and spec_(add[0].recv) in (vnew, T.idx(VA, T.num(slot))) and add[0].args == (T.attr(SELF, "id"),)
-        order = bool(rem and sta and add) and rem[0].node.lineno < sta[0].node.lineno <= add[0].node.lineno
+        order = bool(rem and sta and add) and s.pos(rem[0]) < s.pos(sta[0]) < s.pos(add[0])
         report[end_attr] = dict(unregister_old=ok1, rebinding=ok2, verticesArray=ok3, register_new=ok4, order=order)
     ctx.check(all(all(v.values()) for v in report.values()), "PAIR",
               f"{f.qualname} / PAIR / old end unregistered, v1|v2 and verticesArray updated together, new end registered",
@@ -229,7 +230,7 @@ def run(ctx):
             if not e.sub or e.value[0] != "call" or not isinstance(e.value[1], str):
                 continue
             nm = (e.attr or "").lstrip("$")
-            if KIND.get(nm) != e.value[1]:
+            if e.value[1] not in KIND.values():
                 continue
             n_sites += 1
             ctx.touch(fq)
@@ -248,9 +249,21 @@ def run(ctx):
     for q, fq in sorted(repo.functions.items()):
         if fq.module.name in ("forsys.plot",):
             continue
+        # which local names hold the vertex / edge / cell dictionary: the conventional names, and any local that is filled with
+        # constructed Vertex / SmallEdge / Cell objects (whatever it is called)
+        kinds = {"vertices": "vertices", "edges": "edges", "cells": "cells"}
+        for n in repo.own_nodes(fq):
+            if isinstance(n, ast.Assign) and len(n.targets) == 1 and isinstance(n.targets[0], ast.Subscript) and isinstance(n.targets[0].value, ast.Name) \
+                    and isinstance(n.value, ast.Call):
+                cn = n.value.func.attr if isinstance(n.value.func, ast.Attribute) else n.value.func.id if isinstance(n.value.func, ast.Name) else None
+                if cn in ("Vertex", "SmallEdge", "Cell"):
+                    kinds[n.targets[0].value.id] = {"Vertex": "vertices", "SmallEdge": "edges", "Cell": "cells"}[cn]
+
+        def kind_of(b):
+            nm_ = b.id if isinstance(b, ast.Name) else b.attr if isinstance(b, ast.Attribute) else None
+            return kinds.get(nm_) if isinstance(b, ast.Name) else (nm_ if nm_ in ("vertices", "edges", "cells", "edge_object") else None)
         dels = [n for n in repo.own_nodes(fq) if isinstance(n, ast.Delete) and any(
-            isinstance(t, ast.Subscript) and ((isinstance(t.value, ast.Name) and t.value.id == "vertices") or
-                                              (isinstance(t.value, ast.Attribute) and t.value.attr == "vertices")) for t in n.targets)]
+            isinstance(t, ast.Subscript) and kind_of(t.value) == "vertices" for t in n.targets)]
         if not dels:
             continue
         ctx.touch(fq)
@@ -261,7 +274,7 @@ def run(ctx):
             if isinstance(n, ast.Delete):
                 for t in n.targets:
                     if isinstance(t, ast.Subscript):
-                        nm = t.value.id if isinstance(t.value, ast.Name) else t.value.attr if isinstance(t.value, ast.Attribute) else None
+                        nm = kind_of(t.value)
                         if nm == "edges":
                             edge_actions.append(n.lineno)
                         if nm == "cells":
@@ -270,13 +283,13 @@ def run(ctx):
                 if n.func.attr in ("clear", "pop"):
                     # edges.clear() / edges.pop(k[, default]) remove edges from the dictionary like `del edges[k]`
                     b = n.func.value
-                    nm = b.id if isinstance(b, ast.Name) else b.attr if isinstance(b, ast.Attribute) else None
+                    nm = kind_of(b)
                     if nm == "edges":
                         edge_actions.append(n.lineno)
                 if n.func.attr == "replace_vertex":
                     r = n.func.value
                     base = r.value if isinstance(r, ast.Subscript) else r
-                    nm = base.id if isinstance(base, ast.Name) else base.attr if isinstance(base, ast.Attribute) else None
+                    nm = kind_of(base) or (base.id if isinstance(base, ast.Name) else None)
                     if nm in ("edges", "edge_object"):
                         edge_actions.append(n.lineno)
                     if nm == "cells":
@@ -288,6 +301,30 @@ def run(ctx):
             elif _no_cell_test(n):
                 # guard 'the vertex belongs to no cell' (any spelling of "ownCells is empty")
                 cell_actions.append(n.lineno)
+        # re-pointing done by a helper that is handed the dictionary (`_replace_vertex_in(cells, ids, vertices, old, new)`)
+        for c_ in repo.calls_in(fq):
+            for t_ in repo.resolve_call(c_, fq):
+                if not isinstance(t_, Func) or t_ is fq:
+                    continue
+                names_ = t_.params[1:] if (t_.cls is not None and not t_.is_static and isinstance(c_.func, ast.Attribute)) else t_.params
+                for pname, a_ in list(zip(names_, c_.args)) + [(k.arg, k.value) for k in c_.keywords if k.arg]:
+                    nm = a_.id if isinstance(a_, ast.Name) else a_.attr if isinstance(a_, ast.Attribute) else None
+                    if nm not in ("edges", "cells"):
+                        continue
+                    for m_ in repo.own_nodes(t_):
+                        if isinstance(m_, ast.Call) and isinstance(m_.func, ast.Attribute) and m_.func.attr == "replace_vertex":
+                            r_ = m_.func.value
+                            b_ = r_.value if isinstance(r_, ast.Subscript) else r_
+                            if isinstance(b_, ast.Name) and b_.id == pname:
+                                (edge_actions if nm == "edges" else cell_actions).append(c_.lineno)
+        # the same deletions done by a helper that is handed the dictionary (`_delete_edges(self.edges, ids)`)
+        for st_ in repo.stores(fq):
+            m_ = str(st_.get("method") or "")
+            if st_["kind"] == "mut" and " in forsys." in m_ and m_.split()[0] in ("del_elem", "pop", "clear"):
+                if st_["attr"].lstrip("$") == "edges":
+                    edge_actions.append(st_["node"].lineno)
+                if st_["attr"].lstrip("$") == "cells":
+                    cell_actions.append(st_["node"].lineno)
         for d in dels:
             n_del += 1
             before = [l for l in edge_actions if l < d.lineno]
@@ -346,7 +383,7 @@ def run(ctx):
             def own_edges(t):
                 return (t[0] == "attr" and t[2] == "ownEdges") or (t[0] == "phi" and own_edges(t[2]) and own_edges(t[3]))
             if inner[0] == "call" and inner[1] == "bitand" and all(x[0] == "call" and x[1] == "set" and own_edges(x[2][0]) for x in inner[2]):
-                okc = all(e.node.lineno < r.node.lineno for r in rp) and bool(rp)
+                okc = all(sj.pos(e) < sj.pos(r) for r in rp) and bool(rp)
     ctx.check(okc, "PAIR", f"{jv.qualname} / PAIR / common edge of the merged vertices deleted before re-pointing", ctx.where(jv),
               "del edges[common ownEdges of v0 and v1] precedes every SmallEdge.replace_vertex",
               "the edge joining the two merged vertices is not deleted before the remaining edges are re-pointed (it would end twice at the new vertex)")
@@ -445,7 +482,7 @@ def run(ctx):
                 lp[1][2] == T.call("range", (T.sub(T.call("len", (be,)), T.num(1)),))
             arr_term = lp[0][2]
     rm = [e for e in sg.events if e.kind == "call" and isinstance(e.fname, tuple) and e.fname[1] == "append" and e.loops()
-          and any(c[0] == "not" and c[1][0] == "in" and c[1][2][0] == "call" and c[1][2][1] in ("list", "set", "tuple", "frozenset") for c in e.conds())]
+          and any(c[0] == "not" and c[1][0] == "in" and c[1][2][0] == "call" for c in e.conds())]
     ok_rm = False
     for e in rm:
         for c in e.conds():
